@@ -1,4 +1,4 @@
-import Spdc.Real.CrystalLemmas
+import Spdc.Real.CrystalAxes
 /-!
 # C01 — principal refractive indices: Sellmeier data, bounds, monotonicity, class, windows, ids,
 temperature law
@@ -9,6 +9,48 @@ about the ℝ instance of `Spdc/Model/Crystals.lean`, the model whose Float inst
 -/
 namespace Spdc.Props.C01
 open Spdc Spdc.Crystals
+
+/-! ## T2 — strictly decreasing in wavelength; T3 — physical bounds
+
+`Tmin = 223.15 K`, `Tmax = 473.15 K` are −50 °C and 200 °C; wavelengths in metres inside the declared
+window.  The proof goes through the canonical form of each Sellmeier equation (every pole term
+`P/(λ²−C)` with `P > 0` and the pole outside the window, `−Dλ²` with `D ≥ 0`; lemmas `sell*_anti`
+of `Spdc/Real/CrystalLemmas.lean`, instantiated per crystal and axis in `Spdc/Real/CrystalAxes.lean`,
+KTP `n_y` on both branches with the downward jump at 1.2 µm, LiNb_MgO for every admissible `F`). -/
+
+/-- every principal index strictly decreases with increasing wavelength over the whole window,
+for every crystal and every temperature of the range -/
+theorem indices_strictAnti_in_wavelength (c : Crystal) {T : ℝ} (hT1 : Tmin ≤ T) (hT2 : T ≤ Tmax)
+    {lam1 lam2 : ℝ} (h1 : windowLo c ≤ lam1) (h12 : lam1 < lam2) (h2 : lam2 ≤ windowHi c) :
+    (indices c lam2 T).x < (indices c lam1 T).x ∧ (indices c lam2 T).y < (indices c lam1 T).y ∧
+    (indices c lam2 T).z < (indices c lam1 T).z :=
+  ⟨indices_comp_anti c hT1 hT2 h1 h12 h2 0, indices_comp_anti c hT1 hT2 h1 h12 h2 1,
+   indices_comp_anti c hT1 hT2 h1 h12 h2 2⟩
+
+/-- the squared indices stay above 1.03² on the window, so the square roots in the code are taken
+of positive numbers (no NaN / Mathlib-totalisation artefact) -/
+theorem nSq_pos (c : Crystal) {T : ℝ} (hT1 : Tmin ≤ T) (hT2 : T ≤ Tmax) {lam : ℝ}
+    (h1 : windowLo c ≤ lam) (h2 : lam ≤ windowHi c) :
+    1 < (nSq c (microns lam) T).x ∧ 1 < (nSq c (microns lam) T).y ∧ 1 < (nSq c (microns lam) T).z := by
+  have h := fun i => ((nSq_good c hT1 hT2 i).bounds (microns_mem h1 h2)).1
+  have h0 := h 0; have h1' := h 1; have h2' := h 2
+  simp only [comp] at h0 h1' h2'
+  norm_num at h0 h1' h2'
+  exact ⟨by linarith, by linarith, by linarith⟩
+
+/-- every principal index lies strictly between 1 and 4 -/
+theorem indices_bounds (c : Crystal) {T : ℝ} (hT1 : Tmin ≤ T) (hT2 : T ≤ Tmax) {lam : ℝ}
+    (h1 : windowLo c ≤ lam) (h2 : lam ≤ windowHi c) :
+    (1 < (indices c lam T).x ∧ (indices c lam T).x < 4) ∧
+    (1 < (indices c lam T).y ∧ (indices c lam T).y < 4) ∧
+    (1 < (indices c lam T).z ∧ (indices c lam T).z < 4) :=
+  ⟨indices_comp_bounds c hT1 hT2 h1 h2 0, indices_comp_bounds c hT1 hT2 h1 h2 1,
+   indices_comp_bounds c hT1 hT2 h1 h2 2⟩
+
+/-- the hypotheses are satisfiable: BBO at 800 nm < 1550 nm, 20 °C -/
+example : (indices Crystal.BBO_1 (1550e-9 : ℝ) Tref).z < (indices Crystal.BBO_1 (800e-9 : ℝ) Tref).z :=
+  (indices_strictAnti_in_wavelength .BBO_1 (by norm_num [Tmin, Tref]) (by norm_num [Tmax, Tref])
+    (by norm_num [windowLo]) (by norm_num) (by norm_num [windowHi])).2.2
 
 /-! ## T5 — metadata, windows, identifiers -/
 
